@@ -118,9 +118,11 @@ Qed.
 Lemma tc_field_priv_nil : forall G s f pub t, tc_field_priv Q G s pub = [] -> field_of M s f = Some (pub, t) ->
   (q_field_unimported Q = true -> priv_field M f = false) -> pub = true.
 Proof.
-  intros G s f pub t H Hf Hg. unfold tc_field_priv in H. destruct (lookup G s) as [[| | |]|]; try discriminate H.
+  intros G s f pub t H Hf Hg. unfold tc_field_priv in H. destruct (q_field_unimported Q).
+  - destruct (lookup G s) as [[| | |]|]; try discriminate H.
+    + apply unless_nil in H; auto.
+    + eapply priv_field_false; eauto.
   - apply unless_nil in H; auto.
-  - destruct (q_field_unimported Q); [eapply priv_field_false; eauto | apply unless_nil in H; auto].
 Qed.
 
 Lemma tc_args_cons : forall F G e a t r ps,
@@ -287,7 +289,8 @@ Proof.
       try (injection H as Hv Hd; subst v d; rewrite (IH _ Hn eq_refl); reflexivity).
     destruct (field_of M st f) as [[pub tf]|] eqn:Ef.
     + injection H as Hv Hd; subst v. apply app_nil2 in Hd as [-> Hpv]. rewrite (IH _ Hn eq_refl), Ef.
-      unfold tc_field_priv in *. destruct (Nat.eq_dec st x) as [-> | Hne].
+      unfold tc_field_priv in *. destruct (q_field_unimported Q); [| rewrite Hpv; reflexivity].
+      destruct (Nat.eq_dec st x) as [-> | Hne].
       * rewrite lookup_bind_eq in Hpv. discriminate Hpv.
       * rewrite lookup_bind_neq in Hpv; auto. rewrite Hpv; reflexivity.
     + injection H as Hv Hd. apply app_nil2 in Hd as [_ Hd]; discriminate Hd.
@@ -828,15 +831,18 @@ Proof.
   intros p; unfold guard. apply forallb_forall. intros [f|s] _; cbn; apply guard_patched_stmt.
 Qed.
 
-(* the frontend with the four proposed patches never accepts an ill-formed core program *)
+(* the frontend as it is now (all four repairs) never accepts an ill-formed core program *)
 Theorem check_patched_sound : forall p, check_patched p = [] -> wf p.
 Proof. intros p H; apply (check_with_sound patched); auto using guard_patched. Qed.
 
-(* the pinned frontend: sound on programs where its quirks do not matter *)
-Theorem check_sound_partial : forall p, check p = [] -> quirk_free p = true -> wf p.
+Theorem check_sound : forall p, check p = [] -> wf p.
+Proof. exact check_patched_sound. Qed.
+
+(* the pinned frontend was sound only on programs where its quirks do not matter *)
+Theorem check_pinned_sound_partial : forall p, check_pinned p = [] -> quirk_free p = true -> wf p.
 Proof. intros p H Hq; apply (check_with_sound pinned); auto. Qed.
 
-(* ---- the pinned frontend accepts ill-formed programs: one witness per quirk ------------------------ *)
+(* ---- regression facts: the pinned frontend accepted ill-formed programs, one witness per defect ------------------------ *)
 Definition fvoid (n : name) : top :=
   TFun {| f_name := n; f_params := []; f_ret := None; f_body := BCons (SVar Die TZahl (S n) (ELit LZahl)) BNil |}.
 
@@ -869,10 +875,11 @@ Definition w_for_scope : prog :=
                             (BCons (SVar Die TZahl 2 (ELit LZahl)) BNil))] |}.
 
 Lemma witnesses_accepted_illformed :
-  Forall (fun p => check p = [] /\ wfb p = false) [w_void_eq; w_void_ret; w_init_self; w_priv_field; w_for_scope].
-Proof. repeat constructor; vm_compute; reflexivity. Qed.
+  Forall (fun p => check_pinned p = [] /\ wfb p = false /\ check p <> [])
+         [w_void_eq; w_void_ret; w_init_self; w_priv_field; w_for_scope].
+Proof. repeat constructor; vm_compute; try reflexivity; discriminate. Qed.
 
-Theorem check_sound_refuted : exists p, check p = [] /\ ~ wf p.
+Theorem check_pinned_sound_refuted : exists p, check_pinned p = [] /\ ~ wf p.
 Proof.
   exists w_void_eq. split; [vm_compute; reflexivity |].
   intros H; apply wfb_iff in H. vm_compute in H. discriminate H.
